@@ -17,7 +17,7 @@ LEVEL_RULE = (
 )
 EXHAUSTIVE_SUBDOMAINS = ["DF 0..31 x {56,112} bits x {upper,lower,mixed} for structured addresses (single-bit, all-ones, zero)"]
 ASSUMPTIONS = ["canonical form = the string icao() returns for an upper-case DF20 frame of the same address (%06X)"]
-REQUIRED = ["df%d" % d for d in range(32)] + ["ap_text_echoed_in_payload", "literal_structured_strings", "table_identical_replies_two_aircraft", "case_upper", "case_lower", "case_mixed", "len56", "len112", "table_one_key",
+REQUIRED = ["df%d" % d for d in range(32)] + ["ap_text_echoed_in_payload", "literal_structured_strings", "table_replies_of_strangers", "table_identical_replies_two_aircraft", "case_upper", "case_lower", "case_mixed", "len56", "len112", "table_one_key",
                                               "allcall_rejects", "df_none"]
 
 AP = (0, 4, 5, 16, 20, 21)
@@ -152,6 +152,36 @@ def m_table(ctx, case):
         if got != {k1: 101.0, k2: 101.5}:
             ctx.violation("commb-attached-to-wrong-aircraft", frames=[a1, a2, b1, b2], expected={k1: 101.0, k2: 101.5}, observed=got)
         ctx.hit("table_identical_replies_two_aircraft")
+    if case.get("stranger"):
+        # replies of transponders that are NOT in the table (addresses a few bits away from the tracked one, also with the
+        # register number folded into the address as a data-parity overlay would do) carrying valid register contents:
+        # a Comm-B reply is merged only under its own, already present key - here nothing may change
+        from . import C12
+        d = Decode()
+        a1 = "%028X" % bits.es_frame(17, 5, addr, me)
+        r0 = call(d.process_raw, [100.0], [a1], [], [], 100.5)
+        before = {k: dict(v) for k, v in d.acs.items()}
+        ts, ms = [], []
+        for j, reg in enumerate(("BDS10", "BDS17", "BDS20", "BDS30", "BDS40", "BDS44", "BDS45", "BDS50", "BDS60")):
+            code = int(reg[3:], 16)
+            for other in (addr ^ (code << 16), addr ^ code, addr ^ (1 << rng.randrange(24))):
+                if other == addr:
+                    continue
+                mb, ac = C12.BUILD[reg](rng, case["df"])
+                hdr = rng.fill(27) if ac is None else ((rng.fill(14) << 13) | ac)
+                hx_ = "%028X" % bits.commb_frame(case["df"], hdr, mb, other & 0xFFFFFF)
+                ms.append(hx_.lower() if case["hexcase2"] == "lower" else hx_)
+                ts.append(101.0 + 0.01 * len(ts))
+        r = call(d.process_raw, [], [], ts, ms, 102.0)
+        ctx.ev()
+        if r[0] != "ok":
+            ctx.violation("process_raw-raises", frames=[a1] + ms[:3], observed=r[1:])
+            return
+        after = {k: dict(v) for k, v in d.acs.items()}
+        if set(after) != set(before) or any(after[k].get("t") != before[k].get("t") for k in before):
+            changed = {k: {f: (before.get(k, {}).get(f), v) for f, v in after[k].items() if before.get(k, {}).get(f) != v} for k in after}
+            ctx.violation("commb-of-unknown-transponder-merged", tracked="%06X" % addr, changed=repr(changed)[:400], replies=ms[:4])
+        ctx.hit("table_replies_of_strangers")
 
 
 MONITORS = {"icao": m_icao, "table": m_table}
@@ -192,10 +222,14 @@ def cases(ctx):
         elif kind == 2:    # mirrored
             half = "%0*X" % (L // 2, rng.getrandbits(2 * L))
             lit = half + half[::-1]
+        elif rng.random() < 0.3:   # shifted generator polynomial (the division register runs empty half-way) behind a DF of interest
+            w_ = 4 * L
+            x_ = ((rng.choice(AP) << 3) << (w_ - 8)) ^ (bits.GEN << rng.randrange(0, w_ - 32)) ^ rng.choice((0, 0, bits.GEN, rng.getrandbits(24)))
+            lit = "%0*X" % (L, x_ & ((1 << w_) - 1))
         else:              # a short motif embedded repeatedly
             mot = "%06X" % rng.getrandbits(24)
             lit = ("%02X" % ((rng.choice(AP) << 3) | rng.randrange(8)) + mot * 5)[:L]
         yield "icao", {"df": 0, "n": 4 * L, "addr": 0, "body": "0", "literal": lit, "hexcase": rng.choice(("upper", "upper", "lower", "mixed")), "ic": 0}
     for k in range(ctx.share(3000 if quick else 20000)):
         yield "table", {"addr": rng.fill(24) | 0xA00000, "cs": "%X" % rng.fill(48), "df": rng.choice((20, 21)),
-                        "hexcase": "upper" if k % 2 == 0 else rng.choice(("lower", "mixed")), "hexcase2": rng.choice(("upper", "lower")), "twin": k % 2 == 0}
+                        "hexcase": "upper" if k % 2 == 0 else rng.choice(("lower", "mixed")), "hexcase2": rng.choice(("upper", "lower")), "twin": k % 2 == 0, "stranger": k % 4 == 1}
